@@ -233,7 +233,58 @@ func arityCase(c *Ctx, r *Rng) {
 		}
 		c.Emit("(builtins %s (names 0 1 2) (impl%s))", rsx, b.String())
 		c.Count("builtins")
+		// OPTION VALUES ARE REUSABLE: a CompilerOption that took part in a Compile together with others grants, when it is
+		// used again alone (or in another combination), exactly what a fresh option with the same registration grants — a
+		// Compile must not write into the options it was given (seeded change C19-r8a: the merge of same-name registrations
+		// assigned to the captured callback and arity mask)
+		if len(rs) >= 2 {
+			for _, idx := range [][]int{{len(rs) - 1}, {0}, {len(rs) - 1, 0}} {
+				var sub []reg
+				var reused []gojq.CompilerOption
+				for _, i := range idx {
+					sub = append(sub, rs[i])
+					reused = append(reused, opts[i])
+				}
+				fresh, okf := buildOpts(sub)
+				if !okf {
+					continue
+				}
+				for name := 0; name < 3; name++ {
+					a, b := optBehaviour(reused, name), optBehaviour(fresh, name)
+					c.Count("arity:reuse")
+					if a != b {
+						c.Violation("option reuse: after a Compile with %s the options %v used again alone behave differently from fresh options with the same registrations for cf%d: reused %s fresh %s", rsx, idx, name, a, b)
+					}
+				}
+			}
+		}
 	}
+}
+
+// optBehaviour: for every argument count 0..33 what a call of cf<name> does under these options (rejected / which callback / error)
+func optBehaviour(opts []gojq.CompilerOption, name int) string {
+	var b strings.Builder
+	for cnt := 0; cnt <= 33; cnt++ {
+		src := "cf" + strconv.Itoa(name)
+		if cnt > 0 {
+			src += "(" + strings.TrimSuffix(strings.Repeat("0;", cnt), ";") + ")"
+		}
+		res := compileWith(src, opts)
+		switch {
+		case res.panicked:
+			b.WriteString("P")
+		case res.err != nil:
+			b.WriteString("r")
+		default:
+			fmt.Fprintf(&b, "%v", collect(res.code.Run(nil), 3))
+		}
+		b.WriteString(";")
+	}
+	res := compileWith("[builtins[] | select(startswith(\"cf\"))]", opts)
+	if res.err == nil && !res.panicked && res.code != nil {
+		fmt.Fprintf(&b, "|%v", collect(res.code.Run(nil), 2))
+	}
+	return b.String()
 }
 
 // ------------------------------------------------------------------------------------------------
